@@ -536,6 +536,22 @@ def main():
                     "error_histogram": errs, "trigger_histogram": trig, "known_finding_hits": known_counts,
                     "profiles": [(n, c) for n, _, c in profs]})
 
+    if pid == "C17" and eng is None:
+        # the same histories through the REAL Autobahn/Twisted stack on 127.0.0.1
+        nl = 25 if tier == "quick" else 400
+        lp = subprocess.run([sys.executable, "-W", "ignore", os.path.join(HERE, "loopback.py"), str(nl), str(seed)],
+                            stdout=subprocess.PIPE, stderr=subprocess.PIPE, timeout=3000, env=dict(os.environ))
+        try:
+            lr = json.loads(lp.stdout.decode().strip().splitlines()[-1])
+        except Exception:
+            lr = {"errors": ["loopback run failed: " + lp.stderr.decode()[-400:]], "mismatches": [], "histories": 0, "frames": 0}
+        cov["real_stack_replay"] = {"histories": lr.get("histories"), "frames_compared": lr.get("frames"),
+                                    "mismatches": len(lr.get("mismatches", [])), "errors": lr.get("errors", [])[:3]}
+        if lr.get("mismatches") and not violations:
+            path = write_replay(pid, "realstack", {"broken": "frames seen by real websocket clients differ from the frames the in-process runner intercepted",
+                                                   "first": lr["mismatches"][0]})
+            violations.append((path, " no-failing-input-found"))
+
     if pid == "C10" and eng is None:
         # validate the crash simulation against real process death on a sample
         import gen, realkill
